@@ -9,9 +9,13 @@ Model of the two CALLERS of `RebalanceWeight`, composed with `HapVerif.C16.rebal
   `GwWrite`; the code: every listed endpoint becomes a server, `gwWriteAll`) gives every server of
   ref `i` the weight `cl[i].Weight`.
 * `pkg/converters/ingress/annotations/backend.go` `buildBackendBlueGreenBalance` (`bgRun`): parse
-  of `label=value=weight,...` (any malformed item aborts and leaves every weight untouched),
-  clamp to 0..256, first loop over the endpoints (weight 0 = draining: skipped; the LAST matching
-  entry's weight sticks, the endpoint is appended to EVERY matching group; no match / no pod: 0),
+  of `label=value=weight,...` (`strings.Split` on `,` then on `=`: exactly three fields, of which the
+  label NAME and the label VALUE may be EMPTY — `blue==3` is label `blue`, value ``, weight 3; any
+  malformed item aborts and leaves every weight untouched), clamp to 0..256, first loop over the
+  endpoints (weight 0 = draining: skipped; an entry matches the pod iff the label is PRESENT in the
+  pod's label map — comma-ok lookup — and its value is equal, so a pod WITHOUT the label matches no
+  entry, not even one declared with the empty value; the LAST matching entry's weight sticks, the
+  endpoint is appended to EVERY matching group; no match / no pod: 0),
   mode `pod` stops there, any other mode rebalances with `initial-weight` and writes the groups
   back in order (a later group overwrites an earlier one).  The endpoints it walks are the SERVERS
   of the backend, which the ingress converter's `addEndpoints` built with `AcquireEndpoint`: one
@@ -172,6 +176,24 @@ structure BgEp where
   labels : Option (List (String × String))
 deriving Repr, DecidableEq
 
+/-! ### the labels of a pod: a PARTIAL map
+
+`pod.Labels` is a Go `map[string]string`.  It is modelled by an association list read with
+`List.lookup` (the first pair of a key counts): a label name is ABSENT (`none`), PRESENT with the
+empty value (`some ""` — marker labels such as `blue: ""` are legal in Kubernetes) or present with
+another value.  Names and values are arbitrary strings, the empty string included. -/
+
+/-- `pod.Labels[k] = v` (Go map assignment): the value of an existing key is replaced -/
+def labelSet (m : List (String × String)) (k v : String) : List (String × String) :=
+  if m.any (·.1 == k) then m.map fun p => if p.1 == k then (k, v) else p else m ++ [(k, v)]
+
+/-- the map built by assigning the pairs in order (a repeated name: the LAST value wins) -/
+def labelsOfPairs (kvs : List (String × String)) : List (String × String) :=
+  kvs.foldl (fun m p => labelSet m p.1 p.2) []
+
+/-- `label, found := pod.Labels[name]`: `none` = not found -/
+def labelGet (ls : List (String × String)) (name : String) : Option String := ls.lookup name
+
 /-! ### from the listed endpoints to the servers (ingress converter `addEndpoints`)
 
 `convutils.CreateEndpoints` lists ready and not-ready endpoints (an ip:port may repeat, as for the
@@ -215,9 +237,24 @@ def parseGoInt (s : String) : Option Int :=
   let v : Int := if neg then -(n : Int) else (n : Int)
   if v < -9223372036854775808 ∨ v > 9223372036854775807 then none else some v
 
-/-- one `label=value=weight` item -/
+/-- Go `strings.Split(s, sep)` for a one-character separator, on the characters of `s`: the fields
+between the separators — `count sep + 1` of them, empty ones kept (`"blue==3"` has the fields `blue`,
+`` and `3`; `""` has the one field ``).  Structural, so that the kernel evaluates it
+(`Props/C16Labels`: `goSplit_length`, `goSplit_join`, `goSplit_no_sep`, `goSplit_unique`). -/
+def goSplit (sep : Char) : List Char → List (List Char)
+  | [] => [[]]
+  | c :: cs =>
+    if c = sep then [] :: goSplit sep cs
+    else match goSplit sep cs with
+      | f :: fs => (c :: f) :: fs
+      | [] => [[c]]
+
+def goSplitStr (sep : Char) (s : String) : List String := (goSplit sep s.toList).map String.ofList
+
+/-- one `label=value=weight` item: `dwSlice := strings.Split(weight, "="); len(dwSlice) != 3` is an
+error.  Nothing is demanded of the first two fields: the label name and the label value may be empty. -/
 def parseEntry (s : String) : Option BgEntry :=
-  match s.splitOn "=" with
+  match goSplitStr '=' s with
   | [n, v, w] => (parseGoInt w).map fun w => ⟨n, v, clampWeight w⟩
   | _ => none
 
@@ -230,7 +267,7 @@ def parseEntries : List String → Option (List BgEntry)
     | _, _ => none
 
 /-- the whole annotation -/
-def parseBalance (s : String) : Option (List BgEntry) := parseEntries (s.splitOn ",")
+def parseBalance (s : String) : Option (List BgEntry) := parseEntries (goSplitStr ',' s)
 
 structure BgIn where
   /-- value of `blue-green-mode` (`""` when absent) -/
@@ -245,10 +282,24 @@ deriving Repr
 /-- weight of the endpoint when blue/green starts: `Server.InitialWeight`, 0 when draining -/
 def bgCur (initial : Int) (ep : BgEp) : Int := if ep.drain then 0 else initial
 
+/-- **the matching condition** `if label, found := pod.Labels[dw.labelName]; found { if label ==
+dw.labelValue {` (pinned by `Facts.c16BlueGreenMatchCommaOk` / `c16BlueGreenMatchEq`): the label is
+PRESENT and its value is the entry's.  A pod that lacks the label matches no entry of that name,
+whatever the entry's value — the empty value included. -/
 def bgLabelMatch (e : BgEntry) (ep : BgEp) : Bool :=
   match ep.labels with
   | none => false
-  | some ls => ls.lookup e.name == some e.value
+  | some ls =>
+    match labelGet ls e.name with
+    | some label => label == e.value
+    | none => false
+
+/-- **the seeded variant C16f**: `if pod.Labels[dw.labelName] == dw.labelValue {` — a missing key
+reads as `""`, so a pod WITHOUT the label matches every entry declared with the empty value -/
+def bgLabelMatchLoose (e : BgEntry) (ep : BgEp) : Bool :=
+  match ep.labels with
+  | none => false
+  | some ls => (labelGet ls e.name).getD "" == e.value
 
 /-- the endpoint is appended to the group of `e` -/
 def bgMember (initial : Int) (e : BgEntry) (ep : BgEp) : Bool :=
@@ -293,6 +344,41 @@ def bgRun (i : BgIn) : List Int :=
   | none => i.eps.map (bgCur i.initial)           -- untouched
   | some entries => bgCore i.mode i.initial entries i.eps
 
+/-! ### the function with the matching condition as a PARAMETER
+
+So that both the code (`bgLabelMatch`) and the seeded variant (`bgLabelMatchLoose`) are expressible:
+`bgRunM bgLabelMatch = bgRun` (`Props/C16Labels.bgRunM_code`, by `rfl`). -/
+
+abbrev BgMatch := BgEntry → BgEp → Bool
+
+def bgMemberM (m : BgMatch) (initial : Int) (e : BgEntry) (ep : BgEp) : Bool :=
+  bgCur initial ep != 0 && m e ep
+
+def bgClustersM (m : BgMatch) (initial : Int) (entries : List BgEntry) (eps : List BgEp) : List Cluster :=
+  entries.map fun e => ⟨e.weight, (eps.filter (bgMemberM m initial e)).length⟩
+
+def bgPodWeightM (m : BgMatch) (initial : Int) (entries : List BgEntry) (ep : BgEp) : Int :=
+  match (entries.filter fun e => bgMemberM m initial e ep).getLast? with
+  | some e => e.weight
+  | none => 0
+
+def bgDeployWeightM (m : BgMatch) (initial : Int) (entries : List BgEntry) (out : List (Option Int))
+    (ep : BgEp) : Int :=
+  match ((entries.zip out).filter fun p => bgMemberM m initial p.1 ep).getLast? with
+  | some (_, some w) => w
+  | _ => 0
+
+def bgCoreM (m : BgMatch) (mode : String) (initial : Int) (entries : List BgEntry) (eps : List BgEp) : List Int :=
+  if mode = "pod" then eps.map (bgPodWeightM m initial entries)
+  else
+    let out := rebalance (bgClustersM m initial entries eps) initial
+    eps.map (bgDeployWeightM m initial entries out)
+
+def bgRunM (m : BgMatch) (i : BgIn) : List Int :=
+  match bgEntries i.ann with
+  | none => i.eps.map (bgCur i.initial)
+  | some entries => bgCoreM m i.mode i.initial entries i.eps
+
 /-! ### Spec -/
 
 def bgMatching (initial : Int) (entries : List BgEntry) (ep : BgEp) : List BgEntry :=
@@ -315,7 +401,10 @@ def bgGroups (initial : Int) (entries : List BgEntry) (rows : List (BgEp × Int)
 
 * outside the property's quantifier (`initial-weight` 1..256; 0 = every server draining is kept)
   nothing is demanded, nor when no balance is configured (absent / malformed annotation);
-* every server: `bg-range`; draining / no group: weight 0;
+* every server: `bg-range`; draining / no group: weight 0 (`bg-unmatched-not-zero`: a server whose pod
+  lacks the label of every entry belongs to no group, whatever the entries' values — `bgMatching` is
+  the comma-ok matching `bgLabelMatch`, which is what "the server matches no group" means for a label
+  SELECTOR: an absent label is not the label with the empty value);
 * a server of exactly ONE group: zero iff the group's configured weight is zero; mode `pod`: the
   configured weight itself;
 * mode deploy, groups none of whose members belongs to another group: members uniform, then the
